@@ -36,13 +36,20 @@ LEVEL_TEXT = ('Lean theorems for every CSS parity-check matrix (pure-X / pure-Z 
               'binary of length 2n; the XCube parity-check matrix is CSS; the Z half is the ldpc answer and (ldpc '
               'contract) reproduces the X-row syndrome; the qubit_index keys of the loop scatter all exist iff '
               'Lx <= Ly <= Lz (no KeyError from it on such lattices; kernel-checked KeyError witness on 3x2x2); a '
-              'kernel-checked counterexample shows the cube (Z-row) syndrome is not reproduced in general (2x2x3).')
+              'kernel-checked counterexample shows the cube (Z-row) syndrome is not reproduced in general (2x2x3). '
+              'MemoryBeliefPropagationDecoder: its integer/boolean glue is modelled with the float message passing '
+              'as a parameter; for every matrix, syndrome and messages: with max_bp_iter >= 1 the result is binary '
+              'of length 2n and is exactly the vector tested by the last executed iteration (the final reverse and '
+              'swap cancel); the loop stops at the first iteration that reaches the syndrome, so a run that reaches '
+              'it within the budget reproduces the syndrome; max_bp_iter = 0 raises UnboundLocalError.')
 LEVEL_NOTE = ('trusted (modelled, not verified): PyMatching Matching.decode (returns a minimum-weight solution of '
               'H c = s), ldpc BpOsdDecoder.decode (return value solves H c = s for s in im H), uf_support.Support '
               '(returns a solution of H c = s); each contract is tested on every run by the spy. Tested only, not '
               'proved: constructibility of every (decoder, allowed code) pair; "returns a binary length-2n vector '
-              'without raising" for the incomplete decoders sweep-match and MBP, whose internals are modelled by '
-              'interface only (sweep automata: C10). XCubeMatchingDecoder: modelled completely and compared on '
+              'without raising" for the sweep-match decoders, whose sweepers are modelled by interface only (sweep '
+              'automata: C10). MBP: the float message passing (log_exp_bias, tanh_prod, gamma/delta updates) is not '
+              'modelled; the hard decisions enter as a parameter and are read off the vectors handed to '
+              'measure_syndrome in the correspondence. XCubeMatchingDecoder: modelled completely and compared on '
               'every run (every sliced syndrome, solver answer, helper result, scatter vector, result or KeyError '
               'key, all lattices in {2,3}^3 and a few with a side of 4); "never raises" is proved for the loop '
               'scatter only (the look-up of the known finding); absence of KeyError from the other dict look-ups '
@@ -67,8 +74,9 @@ ANCHOR_FILES = ['panqec/decoders/matching/_matching_decoder.py', 'panqec/decoder
                 'panqec/decoders/sweepmatch/_sweep_match_decoder.py',
                 'panqec/decoders/sweepmatch/_rotated_sweep_match_decoder.py',
                 'panqec/decoders/base/_base_decoder.py', 'panqec/config.py',
-                'panqec/error_models/_base_error_model.py', 'panqec/decoders/xcube/_xcube_matching_decoder.py']
-PROPERTY_MODULES = ['PanqecVerif.Properties.C05', 'PanqecVerif.Properties.C05XCube']
+                'panqec/error_models/_base_error_model.py', 'panqec/decoders/xcube/_xcube_matching_decoder.py',
+                'panqec/decoders/belief_propagation/mbp_decoder.py']
+PROPERTY_MODULES = ['PanqecVerif.Properties.C05', 'PanqecVerif.Properties.C05XCube', 'PanqecVerif.Properties.C05Mbp']
 
 warnings.filterwarnings('ignore')
 
@@ -661,6 +669,10 @@ def correspondence(ctx):
     rngx = ctx.np_rng(55)
     streams.append(XC.weight12_stream(ctx, rngx))
     streams.append(XC.random_stream(ctx, rngx))
+
+    # --- MemoryBeliefPropagationDecoder: integer/boolean glue (Model/MbpDecoder.lean), see harness/mbp_dec.py
+    from harness import mbp_dec
+    streams.append(mbp_dec.mbp_stream(ctx, ctx.np_rng(56)))
     return streams
 
 
@@ -843,9 +855,9 @@ def oracle(ctx, deep=False, broken=None):
         f['observed'] = check_case(f['input']) or f['observed']
     pairs = sorted({(c['decoder'], c['code']) for c in cases})
     return fails, {'evaluations': n_eval, 'decoder_code_pairs_constructed_and_run (tested)': len(pairs),
-                   'incomplete decoders (interface only, tested)': ['SweepMatchDecoder', 'RotatedSweepMatchDecoder',
-                                                                    'MemoryBeliefPropagationDecoder'],
-                   'incomplete decoders (modelled completely, validity proved)': ['XCubeMatchingDecoder']}
+                   'incomplete decoders (interface only, tested)': ['SweepMatchDecoder', 'RotatedSweepMatchDecoder'],
+                   'incomplete decoders (glue modelled, validity proved)': ['XCubeMatchingDecoder',
+                                                                           'MemoryBeliefPropagationDecoder']}
 
 
 def replay(ctx, payload):
